@@ -23,12 +23,12 @@ func try(f func()) (panicked bool, msg string) {
 
 // Hdr is the model of a data-message header and of the HSMS completion data.
 type Hdr struct {
-	Name     string `json:"name"`
-	Stream   int    `json:"stream"`
-	Function int    `json:"function"`
-	Wait     int    `json:"wait"` // 0 false, 1 true, 2 optional
-	Dir      string `json:"dir"`
-	Session  int    `json:"session"` // -1: not set
+	Name     string         `json:"name"`
+	Stream   int            `json:"stream"`
+	Function int            `json:"function"`
+	Wait     int            `json:"wait"` // 0 false, 1 true, 2 optional
+	Dir      string         `json:"dir"`
+	Session  int            `json:"session"` // -1: not set
 	System   model.HexBytes `json:"system"`
 }
 
